@@ -8,6 +8,7 @@ import (
 	"path/filepath"
 	"sort"
 	"strings"
+	"sync"
 	"time"
 
 	"golang.org/x/tools/go/ssa"
@@ -269,16 +270,42 @@ func c11Gates(c *Ctx, report func(sig map[string]string, art map[string]any, nam
 	progs := append(corpus.FD(), corpus.FW()...)
 	pipe.Generate(progs, 16)
 	runs := 0
+	var rmu sync.Mutex
+	var rwg sync.WaitGroup
+	rsem := make(chan struct{}, 16)
+	lockedReport := func(sig map[string]string, art map[string]any, name string) {
+		rmu.Lock()
+		defer rmu.Unlock()
+		report(sig, art, name)
+	}
 	for _, it := range pipe.Items {
 		if it.CLIErr != nil {
 			c.Inconclusive(fmt.Sprintf("determinism gate: generator rejected %q: %s", it.Prog.Desc, lastLines(it.CLIOut, 2)))
 			continue
 		}
+		it := it
+		rwg.Add(1)
+		rsem <- struct{}{}
+		go func() {
+			defer func() { <-rsem; rwg.Done() }()
+			rerunVariants(c, pipe, it, &rmu, &runs, lockedReport)
+		}()
+	}
+	rwg.Wait()
+	c.Coverage["gate_rerun_programs"] = len(pipe.Items)
+	c.Coverage["gate_reruns"] = runs
+	c.Coverage["gates_s"] = time.Since(t0).Seconds()
+	return nil
+}
+
+// rerunVariants regenerates one program under every rerun variant and compares with the first output.
+func rerunVariants(c *Ctx, pipe *pipeline.Pipe, it *pipeline.Item, rmu *sync.Mutex, runs *int, report func(sig map[string]string, art map[string]any, name string)) {
+	{
 		first := map[string]string{}
 		for k, v := range it.GenSrc {
 			first[k] = v
 		}
-		variants := []string{"rerun-with-previous-output", "rerun-GOMAXPROCS=1", "rerun-truncated-previous-output", "rerun-GOMAXPROCS=16", "rerun-longer-stale-output", "rerun-GOMAXPROCS=2", "rerun-GOMAXPROCS=5"}
+		variants := []string{"rerun-with-previous-output", "rerun-GOMAXPROCS=1", "rerun-truncated-previous-output", "rerun-GOMAXPROCS=16", "rerun-longer-stale-output", "rerun-GOMAXPROCS=2", "rerun-GOMAXPROCS=5", "rerun-how=abs", "rerun-how=dot", "rerun-env TZ=Asia/Tokyo LANG=ja_JP.UTF-8"}
 		if c.Thorough() {
 			for _, n := range []int{3, 4, 6, 7, 8, 9, 10, 11, 12, 13, 14, 15} {
 				variants = append(variants, fmt.Sprintf("rerun-GOMAXPROCS=%d", n))
@@ -299,8 +326,17 @@ func c11Gates(c *Ctx, report func(sig map[string]string, art map[string]any, nam
 			if i := strings.Index(variant, "GOMAXPROCS="); i >= 0 {
 				env = append(env, variant[i:])
 			}
-			pipe.RunCLIEnv(it, env)
-			runs++
+			how := ""
+			if i := strings.Index(variant, "how="); i >= 0 {
+				how = variant[i+4:]
+			}
+			if i := strings.Index(variant, "env "); i >= 0 {
+				env = append(env, strings.Fields(variant[i+4:])...)
+			}
+			pipe.RunCLIHow(it, env, how)
+			rmu.Lock()
+			*runs++
+			rmu.Unlock()
 			same := it.CLIErr == nil && len(it.GenSrc) == len(first)
 			for name, src := range first {
 				if it.GenSrc[name] != src {
@@ -314,8 +350,4 @@ func c11Gates(c *Ctx, report func(sig map[string]string, art map[string]any, nam
 			}
 		}
 	}
-	c.Coverage["gate_rerun_programs"] = len(pipe.Items)
-	c.Coverage["gate_reruns"] = runs
-	c.Coverage["gates_s"] = time.Since(t0).Seconds()
-	return nil
 }
